@@ -55,6 +55,8 @@ func main() {
 		res = runSidecar(a)
 	case "store":
 		res = runStore(a)
+	case "proxy":
+		res = runProxy(a)
 	default:
 		fmt.Fprintln(os.Stderr, "unknown engine", a.engine)
 		os.Exit(2)
